@@ -132,6 +132,7 @@ SupportedKinds == {
     "try-except", "break", "continue", "return-value", "return-bare",
     \* a keyword standing directly against its operand (optional spacing)
     "return-paren-tight", "return-minus-tight", "return-tab", "if-paren-tight", "elif-paren-tight", "while-paren-tight",
+    "elif-pass-else", "elif-print-elif", "if-pass-else",
     \* string literals that contain `#` after escaped quotes (a comment stripper must respect the literal), and a loop
     \* sitting next to a first assignment in the same `if` (the promotion pass rewrites that branch)
     "serial-write-hash-dq", "serial-write-hash-sq", "if-hash-literal", "if-first-assign-and-for", "else-first-assign-and-while"}
